@@ -40,6 +40,15 @@ PoolDesc ==
                   ELSE VPx(Some([NoTD EXCEPT !.id = Some(id), !.nyct = Nyct(train, Some(a), dir)]), Some(VDid(4)))>>)
        : kind \in {"tu", "vp"}, id \in {1064650, 2143999, 3064650, 2, 1599999, 1000000, 1000009},
          train \in {None, Some(0), Some(1)}, a \in Bools, dir \in {None, Some(1), Some(2), Some(3), Some(4)}}
+    \cup (* the feed's own descriptor carries a label or a plate next to (or instead of) an id: the train id replaces the whole descriptor *)
+    {M(Some(3), <<TUx([NoTD EXCEPT !.id = Some(1064650), !.nyct = Nyct(Some(1), Some(a), Some(1))], vd, <<StuN(Some(19), Some(7), None, None)>>),
+                  VPx(Some([NoTD EXCEPT !.id = Some(1064650), !.nyct = Nyct(Some(1), Some(a), Some(1))]), vd2)>>)
+       : a \in Bools, vd \in {None, Some([id |-> None, label |-> Some(1), plate |-> None]), Some([id |-> Some(4), label |-> Some(1), plate |-> Some(1)])},
+         vd2 \in {None, Some([id |-> None, label |-> Some(2), plate |-> None])}}
+    \cup (* plain entities (no NYCT data) whose trip id happens to have the NYCT shape keep the start time the feed gave them *)
+    {M(Some(3), <<IF kind = "tu" THEN TUx([NoTD EXCEPT !.id = Some(id), !.st = st], None, <<StuN(Some(19), Some(5), None, None)>>)
+                  ELSE VPx(Some([NoTD EXCEPT !.id = Some(id), !.st = st]), Some(VDid(4)))>>)
+       : kind \in {"tu", "vp"}, id \in {1064650, 2143999}, st \in {None, Some([h |-> 1, m |-> 2, s |-> 3, ok |-> TRUE])}}
 (* C: the M train platform swap *)
 PoolSwap ==
     {M(Some(3), <<TUx([NoTD EXCEPT !.id = Some(2), !.route = r, !.nyct = n], None,
